@@ -232,8 +232,14 @@ def havoc_loop_state(eng, nodes, fr, spec, extra_names=()):
         if isinstance(v, (SArr, NArr, PList, PDict, Obj, DictListRef)):
             havoc_value(eng, v, done)
     for extra in (spec or {}).get("modifies", []):
-        # an expression of the loop's frame, or fn(eng, frame) -> value for state the body reaches only through closures
-        v = extra(eng, fr) if callable(extra) else eng.ev(ast.parse(extra, mode="eval").body, fr)
+        # an expression of the loop's frame, or a callable fn(eng, frame) / fn(eng) -> value for state the body reaches only through
+        # closures / ghost state that no program variable names
+        if callable(extra):
+            import inspect as _insp
+
+            v = extra(eng, fr) if len(_insp.signature(extra).parameters) >= 2 else extra(eng)
+        else:
+            v = eng.ev(ast.parse(extra, mode="eval").body, fr)
         havoc_value(eng, v, done)
     for nm in sorted(names):
         f = fr
